@@ -285,6 +285,8 @@ def dynamic_check(pid, tier, mode):
     for cfg in ["MCDynamic_CO.cfg", "MCDynamic_ST.cfg", "MCDynamic_PR.cfg"] + (["MCDynamic_CO_L3.cfg"] if thorough else []):
         res.add_mc(vlib.mc("MCDynamic.tla", cfg=cfg, wd=res.wd, name=cfg[:-4], timeout=3600))
     res.add_mc(vlib.mc("DynVars.tla", cfg="MCDynVars.cfg", wd=res.wd, name="MCDynVars", timeout=600))
+    for cfg in ("MCDynSlots.cfg", "MCDynSlots_f1.cfg", "MCDynSlots_f3.cfg"):          # attack-assumption variants: slot life-cycle, factors 1.5, 1, 3
+        res.add_mc(vlib.mc("DynSlots.tla", cfg=cfg, wd=res.wd, name=cfg[:-4], timeout=600, workers=4))
     # sensitivity of the models: the pinned (defective) designs must be rejected by TLC
     res.extra["model_rejects_missing_reissue_after_removal"] = vlib.mc_expect_violation("MCDynamic.tla", "MCDynamic_defect.cfg", res.wd, "MCDynamic_defect")
     res.extra["model_rejects_stale_cached_certificate_F7"] = vlib.mc_expect_violation("MCDynamic.tla", "MCDynamic_PR_stale.cfg", res.wd, "MCDynamic_PR_stale")
